@@ -450,6 +450,7 @@ def main():
     ap.add_argument("--profile", default="imm"); ap.add_argument("--n", type=int, default=100); ap.add_argument("--events", type=int, default=25)
     a = ap.parse_args()
     rng = random.Random("%s-%d" % (a.profile, a.seed))
+    vr.advance(1000000000)      # a realistic epoch: the lease profile steps the clock back, expiry must stay positive
     work = tempfile.mkdtemp(prefix="stor")
     traces = []
     try:
